@@ -25,12 +25,12 @@ def pre_check(workdir, tier):
     from .. import purity_extract as pe
     d = os.path.join(workdir, "purity")
     os.makedirs(d, exist_ok=True)
-    names = ["operands_never_stored_to", "purity_methods_seen"]
+    names = ["operands_never_stored_to", "purity_methods_seen", "slices_return_fresh_objects", "slice_methods_seen"]
     try:
         res = pe.extract(gtlib.REPO)
     except Exception as e:
         return dict(ok=False, theorems=names, error="translator failed closed: %s: %s" % (type(e).__name__, e))
-    open(os.path.join(d, "Purity.v"), "w").write(pe.to_coq(res))
+    open(os.path.join(d, "Purity.v"), "w").write(pe.to_coq(res, pe.slice_returns(gtlib.REPO)))
     shutil.copy(os.path.join(gtlib.COQ, "schema", "PurityThm.v"), d)
     r1 = subprocess.run(["coqc", "-Q", ".", "", "Purity.v"], cwd=d, capture_output=True, text=True, timeout=300)
     r2 = subprocess.run(["coqc", "-Q", ".", "", "PurityThm.v"], cwd=d, capture_output=True, text=True, timeout=300)
